@@ -228,13 +228,6 @@ func c10Idle(r *core.Run) {
 	for _, ret := range core.Returns(f) {
 		v := core.ResultValue(ret, 0)
 		if k, isK := v.(*ssa.Const); isK && k.Value != nil && k.Value.String() == "false" {
-			for _, cd := range core.Conditions(ret.Block()) {
-				if bin, ok := cd.Val.(*ssa.BinOp); ok && bin.Op == token.EQL && cd.Truth {
-					if c, isCall := bin.X.(*ssa.Call); isCall && methodName(c) == "Nanoseconds" {
-						zeroGuard = true
-					}
-				}
-			}
 			continue
 		}
 		if !isExpiredCall(v) {
@@ -265,6 +258,23 @@ func c10Idle(r *core.Run) {
 		}
 		okExpr = hasIdle && hasLA
 	}
+	// MaxIdleDuration == 0: the function yields false whatever else holds (the test may be
+	// a guard of its own or one operand of a short-circuit condition)
+	core.Instrs(f, func(in ssa.Instruction) {
+		bin, ok := in.(*ssa.BinOp)
+		if !ok || (bin.Op != token.EQL && bin.Op != token.NEQ) {
+			return
+		}
+		c, isCall := bin.X.(*ssa.Call)
+		k, isK := bin.Y.(*ssa.Const)
+		if !isCall || methodName(c) != "Nanoseconds" || !isK || k.Value == nil || k.Int64() != 0 {
+			return
+		}
+		res, decided := core.BoolResult(f, bin.Block(), 0, map[ssa.Value]bool{bin: bin.Op == token.EQL})
+		if decided && !res {
+			zeroGuard = true
+		}
+	})
 	r.Check(okExpr, "idle-boundary", fnIdleFrag+" deadline", site(r, f.Pos()),
 		"idle iff isKeyExpired((MaxIdleDuration + lastAccess) / 1e6)", "the idle deadline is not lastAccess + MaxIdleDuration in milliseconds evaluated by the shared expiry test")
 	r.Check(zeroGuard, "idle-boundary", fnIdleFrag+" disabled when 0", site(r, f.Pos()), "MaxIdleDuration == 0 disables idle eviction", "with MaxIdleDuration == 0 keys are still evicted as idle")
